@@ -6,6 +6,7 @@ CONSTANTS
   Clusters = {}
   HFronts = {}
   TFronts = {}
+  UFronts = {}
   Backends = {}
   Verbs <- VerbsListeners
   MaxReq = 4
